@@ -785,3 +785,40 @@ Definition guarded_admits (cap : nat) (m : pmap) (s : nat) : bool :=
 
 Definition guarded_session (cap : nat) (m : pmap) (s : nat) : pmap :=
   if guarded_admits cap m s then pm_set (pm_set m s true) s false else m.
+
+(* ------------------------------------------------------------------------------------------ *)
+(* Part 11.  The ORDER of the release against the sends of a session.  Every Broadcast of a session
+   opens / uses streams registered under its id (Parts 3, 6); CloseSession releases the streams
+   registered so far.  The ledger of one session on the communication layer, in the order of the
+   calls: [LSend] a Broadcast for the session, [LClose] a CloseSession of it.  Execute makes the sends
+   of its first attempt (initiate / ready / start messages), then - for a retryable error -
+   handleError makes the sends of the retry phase (ready answers to the new coordinator, initiate and
+   start messages of a re-elected coordinator), and the deferred cleanup closes the session: ONE
+   CloseSession, after every send.                                                               *)
+Inductive lev := LSend | LClose.
+
+Definition is_lclose (e : lev) : bool := match e with LClose => true | LSend => false end.
+
+(* the code: the release is part of the deferred cleanup *)
+Definition exec_ledger (first retry : nat) : list lev :=
+  repeat LSend first ++ repeat LSend retry ++ [LClose].
+
+(* a variant that releases the session when the first attempt is over *)
+Definition early_close_ledger (first retry : nat) : list lev :=
+  repeat LSend first ++ [LClose] ++ repeat LSend retry.
+
+(* the sends of the session that NO CloseSession of the session follows: their streams are still
+   registered / open when the session is over *)
+Fixpoint open_sends (l : list lev) : nat :=
+  match l with
+  | [] => 0
+  | LSend :: r => (if existsb is_lclose r then 0 else 1) + open_sends r
+  | LClose :: r => open_sends r
+  end.
+
+Definition count_sends (l : list lev) : nat :=
+  length (filter (fun e => negb (is_lclose e)) l).
+
+(* THE JUDGE of the ledger of an ended session: "its streams are released" - every send of the
+   session is followed by a CloseSession of the session *)
+Definition released_ok (l : list lev) : bool := Nat.eqb (open_sends l) 0.
